@@ -24,16 +24,23 @@ static char* std_base_of(char* ti) {
   if (ti == TI(11range_error) || ti == TI(14overflow_error) || ti == TI(15underflow_error) || ti == TI(12system_error)) return TI(13runtime_error);
   return 0;
 }
-/* exception objects: 16-byte header before the object holds the type_info pointer */
+/* exception objects live in 4 typed slots; the thrown type is kept in a side table looked up by slot address
+   (no header inside the object: a store through a symbolic slot pointer into one big byte array made queries explode) */
 #define EXC_SLOTS 4
+#ifndef EXC_SIZE
 #define EXC_SIZE 320
-static char excbuf[EXC_SLOTS][EXC_SIZE] __attribute__((aligned(16))); static int excn;
+#endif
+static struct exc_slot { char bytes[EXC_SIZE] __attribute__((aligned(16))); } excslot[EXC_SLOTS];
+static char* exc_ti[EXC_SLOTS]; static int excn;
 char* F___cxa_allocate_exception(uint64_t n) {
-  __CPROVER_assert(n + 16 <= EXC_SIZE, "MODEL: exception object larger than model slot");
+  __CPROVER_assert(n <= EXC_SIZE, "MODEL: exception object larger than model slot");
   __CPROVER_assert(excn < EXC_SLOTS, "BOUND: more than 4 exceptions allocated in one run"); __CPROVER_assume(excn < EXC_SLOTS);
-  char* p = excbuf[excn++]; return p + 16; }
+  char* p = excslot[excn].bytes; excn++; return p; }
 void F___cxa_free_exception(char* p) { }
-void F___cxa_throw(char* obj, char* tinfo, char* dtor) { *(char**)(obj - 16) = tinfo; __exc_obj = obj; __exc_pending = 1; }
+static char* exc_type_of(char* obj) { for (int k = 0; k < EXC_SLOTS; k++) if (obj == excslot[k].bytes) return exc_ti[k]; return 0; }
+void F___cxa_throw(char* obj, char* tinfo, char* dtor) { for (int k = 0; k < EXC_SLOTS; k++) if (obj == excslot[k].bytes) exc_ti[k] = tinfo; __exc_obj = obj; __exc_pending = 1; }
+/* harness-made exception (stubs that throw): returns the object, type recorded */
+char* __VERIF_throw_new(char* tinfo, uint64_t size) { char* o = F___cxa_allocate_exception(size); F___cxa_throw(o, tinfo, 0); return o; }
 static char* caught[4]; static int ncaught;
 char* F___cxa_begin_catch(char* obj) { __exc_pending = 0; if (ncaught < 4) caught[ncaught] = obj; ncaught++; return obj; }
 void F___cxa_end_catch(void) { if (ncaught > 0) ncaught--; }
@@ -43,11 +50,11 @@ void F__ZSt9terminatev(void) { __CPROVER_assert(0, "VERIF: std::terminate called
 void F___cxa_pure_virtual(void) { __CPROVER_assert(0, "VERIF: pure virtual called"); __CPROVER_assume(0); }
 void F___cxa_bad_cast(void);
 int __VERIF_isa(char* obj, char* want) {
-  char* ti = *(char**)(obj - 16);
+  char* ti = exc_type_of(obj);
   for (int i = 0; i < 6 && ti; i++) { if (ti == want) return 1; char* b = __VERIF_base_of_gen(ti); ti = b ? b : std_base_of(ti); }
   return 0;
 }
-char* __VERIF_exc_type(void) { return __exc_obj ? *(char**)(__exc_obj - 16) : 0; }
+char* __VERIF_exc_type(void) { return __exc_obj ? exc_type_of(__exc_obj) : 0; }
 static void throw_std(char* ti) { char* o = F___cxa_allocate_exception(32); F___cxa_throw(o, ti, 0); }
 void F__ZSt19__throw_logic_errorPKc(char* m) { throw_std(TI(11logic_error)); }
 void F__ZSt20__throw_length_errorPKc(char* m) { throw_std(TI(12length_error)); }
